@@ -186,7 +186,8 @@ End Sort.
 (* instances: by clock (spec) and by int64 clock (cmp_ev)                     *)
 (* ------------------------------------------------------------------------ *)
 
-Definition allok (l : list ev) : Prop := Forall (fun e => clk_ok e = true) l.
+Definition allok (l : list ev) : Prop := Forall (fun e => clk_u64 e = true) l.
+Definition ok64 (l : list ev) : Prop := Forall (fun e => clk_ok e = true) l.
 
 Lemma pow63 : 2 ^ 63 = 9223372036854775808. Proof. reflexivity. Qed.
 Lemma pow64 : 2 ^ 64 = 18446744073709551616. Proof. reflexivity. Qed.
@@ -194,27 +195,17 @@ Lemma pow64 : 2 ^ 64 = 18446744073709551616. Proof. reflexivity. Qed.
 Lemma clk_ok_range e : clk_ok e = true -> 0 <= clock e < 2 ^ 63.
 Proof. unfold clk_ok. rewrite pow63. lia. Qed.
 
+Lemma clk_u64_range e : clk_u64 e = true -> 0 <= clock e < 2 ^ 64.
+Proof. unfold clk_u64. rewrite pow64. lia. Qed.
+
 Lemma skey_ok e : clk_ok e = true -> skey e = clock e.
 Proof.
   intros H. apply clk_ok_range in H. unfold skey, to_int64.
   destruct (clock e <? 2 ^ 63) eqn:E; auto. rewrite pow63 in *. lia.
 Qed.
 
-Lemma ins_skey a l : clk_ok a = true -> allok l -> ins_by skey a l = ins_by clock a l.
-Proof.
-  intros Ha. induction 1 as [|b t Hb Ht IH]; cbn; auto.
-  rewrite (skey_ok a Ha), (skey_ok b Hb), IH. reflexivity.
-Qed.
-
 Lemma allok_perm l l' : Permutation l l' -> allok l -> allok l'.
 Proof. intros. eapply Permutation_Forall; eauto. Qed.
-
-Lemma isort_skey l : allok l -> isort_by skey l = ssort l.
-Proof.
-  unfold ssort. induction 1 as [|a t Ha Ht IH]; cbn; auto.
-  rewrite IH. apply ins_skey; auto.
-  eapply allok_perm; [apply isort_perm | exact Ht].
-Qed.
 
 Lemma ssort_sorted l : sorted (ssort l).
 Proof. apply (isort_sorted clock). Qed.
@@ -340,7 +331,7 @@ Proof.
   - constructor; auto.
 Qed.
 
-Lemma loader_from_true lo l : sorted l -> allok l -> Forall (fun e => lo <= clock e) l -> loader_from lo l = true.
+Lemma loader_from_true lo l : sorted l -> ok64 l -> Forall (fun e => lo <= clock e) l -> loader_from lo l = true.
 Proof.
   intros S; revert lo. induction S as [|a t St IH Fa]; cbn; intros lo Ok F; auto.
   inversion F; inversion Ok; subst. rewrite (skey_ok a) by auto.
@@ -348,6 +339,9 @@ Proof.
 Qed.
 
 Lemma allok_nonneg l : allok l -> Forall (fun e => 0 <= clock e) l.
+Proof. intros H; eapply Forall_impl; [|exact H]. intros e He. apply clk_u64_range in He. lia. Qed.
+
+Lemma ok64_nonneg l : ok64 l -> Forall (fun e => 0 <= clock e) l.
 Proof. intros H; eapply Forall_impl; [|exact H]. intros e He. apply clk_ok_range in He. lia. Qed.
 
 (* elements not below m form a prefix of a non-increasing list *)
@@ -450,7 +444,7 @@ Proof.
     { rewrite Hwin. pose proof OkD' as O. rewrite HDD in O. apply Forall_app in O. destruct O as [_ O].
       inversion O; subst. constructor; auto. apply Forall_app; split; auto.
       eapply allok_perm; [apply Permutation_rev | apply Okrb]. }
-    rewrite (isort_skey win Okwin), (ring_check_ssort win Okwin).
+    change (isort_by clock win) with (ssort win). rewrite (ring_check_ssort win Okwin).
     f_equal.
     assert (E : D' ++ rev rb = rev B' ++ win).
     { rewrite HDD, Hwin, <- app_assoc. reflexivity. }
@@ -482,7 +476,8 @@ Proof.
     rewrite Hwin.
     assert (Okwin : allok (D' ++ rev rb)).
     { apply Forall_app; split; [apply OkD'|]. eapply allok_perm; [apply Permutation_rev | apply Okrb]. }
-    rewrite (isort_skey _ Okwin), (ring_check_ssort _ Okwin). reflexivity.
+    change (isort_by clock (D' ++ rev rb)) with (ssort (D' ++ rev rb)).
+    rewrite (ring_check_ssort _ Okwin). reflexivity.
 Qed.
 
 (* ... and on a region whose look-back condition does not hold *)
@@ -544,7 +539,7 @@ Proof. intros H F. eapply Forall_impl; [|exact F]. cbn; intros; lia. Qed.
 
 Lemma pstep_flat n p e p' : pstep n p e = Some p' -> flat p' = flat p ++ [e].
 Proof.
-  unfold pstep, flat. destruct (negb (clk_ok e)); [discriminate|].
+  unfold pstep, flat. destruct (negb (clk_u64 e)); [discriminate|].
   destruct p as [bef last mode]; cbn. destruct mode as [|s rb].
   - destruct (last <=? clock e); [|discriminate].
     destruct (starts_unsorted_region e); intros H; inversion H; subst; cbn.
@@ -571,7 +566,7 @@ Lemma sim_step n p w e p' : sim p w -> pstep n p e = Some p' ->
   exists w', wstep n w e = Some w' /\ sim p' w'.
 Proof.
   intros (Okb & Fb & M) H. unfold pstep in H.
-  destruct (clk_ok e) eqn:Oke; cbn [negb] in H; [|discriminate].
+  destruct (clk_u64 e) eqn:Oke; cbn [negb] in H; [|discriminate].
   destruct p as [bef last mode]; cbn [p_before p_last p_mode] in *. destruct mode as [|s rb].
   - destruct M as [Wst Wrd].
     destruct (last <=? clock e) eqn:Ele; [|discriminate].
@@ -701,8 +696,8 @@ Proof.
   destruct (sorted_from_sound _ _ H) as [F S]. constructor; auto.
 Qed.
 
-Lemma loader_accepts_sorted l : sorted l -> allok l -> loader_accepts l = true.
-Proof. intros S Ok. apply loader_from_true; auto. now apply allok_nonneg. Qed.
+Lemma loader_accepts_sorted l : sorted l -> ok64 l -> loader_accepts l = true.
+Proof. intros S Ok. apply loader_from_true; auto. now apply ok64_nonneg. Qed.
 
 Theorem winsort_succeeds n evs : pre n evs -> exists out, winsort n evs = Some out.
 Proof. intros P. eexists. apply winsort_is_ssort; auto. Qed.
@@ -710,7 +705,7 @@ Proof. intros P. eexists. apply winsort_is_ssort; auto. Qed.
 Theorem winsort_post n evs out : pre n evs -> winsort n evs = Some out ->
   Permutation evs out /\ sorted out /\ stable evs out /\ prefix_untouched evs out /\
   length out = length evs /\ total_size out = total_size evs /\
-  check_mode out = true /\ loader_accepts out = true.
+  check_mode out = true /\ (ok64 evs -> loader_accepts out = true).
 Proof.
   intros P H. rewrite (winsort_is_ssort _ _ P) in H. inversion H; subst out; clear H.
   repeat split.
@@ -721,8 +716,8 @@ Proof.
   - apply ssort_length.
   - symmetry. apply total_size_perm, ssort_perm.
   - apply check_mode_sorted, ssort_sorted.
-  - apply loader_accepts_sorted; [apply ssort_sorted|].
-    eapply allok_perm; [apply ssort_perm | eapply pre_allok; eauto].
+  - intros O. apply loader_accepts_sorted; [apply ssort_sorted|].
+    eapply Permutation_Forall; [apply ssort_perm | exact O].
 Qed.
 
 (* two outputs satisfying the postconditions are equal: the specification
@@ -766,22 +761,20 @@ Qed.
 (* ------------------------------------------------------------------------ *)
 
 Lemma exec_plan_sorted_id n k rd rd' :
-  sorted (rev rd) -> allok rd -> exec_plan n k rd = Some rd' -> rd' = rd.
+  sorted (rev rd) -> exec_plan n k rd = Some rd' -> rd' = rd.
 Proof.
-  intros S Ok. unfold exec_plan, exec_plan_r.
+  intros S. unfold exec_plan, exec_plan_r.
   destruct (find_destination n rd (min_clock (rev (firstn k rd)))) as [w|]; [|discriminate].
   destruct (ring_check _); [|discriminate]. intros H; inversion H; subst; clear H.
   assert (Sw : sorted (rev (firstn w rd))).
   { rewrite <- (firstn_skipn w rd), rev_app_distr in S. apply SS_app_inv in S. tauto. }
-  assert (Okw : allok (rev (firstn w rd))).
-  { eapply allok_perm; [apply Permutation_rev|]. apply Forall_firstn', Ok. }
-  rewrite (isort_skey _ Okw), (ssort_id _ Sw), rev_involutive. apply firstn_skipn.
+  pose proof (ssort_id _ Sw) as E. unfold ssort in E. rewrite E, rev_involutive. apply firstn_skipn.
 Qed.
 
 Lemma wstep_sorted_id n w e w' :
-  sorted (rev (w_rd w)) -> allok (w_rd w) -> wstep n w e = Some w' -> w_rd w' = e :: w_rd w.
+  sorted (rev (w_rd w)) -> wstep n w e = Some w' -> w_rd w' = e :: w_rd w.
 Proof.
-  intros S Ok. unfold wstep. destruct (w_st w).
+  intros S. unfold wstep. destruct (w_st w).
   - destruct (starts_unsorted_region e); intros H; inversion H; reflexivity.
   - destruct (ends_unsorted_region e); intros H; inversion H; reflexivity.
   - destruct (ends_unsorted_region e).
@@ -791,25 +784,22 @@ Proof.
 Qed.
 
 Lemma wrun_sorted_id n l : forall w w',
-  sorted (rev (w_rd w) ++ l) -> allok (rev (w_rd w) ++ l) ->
+  sorted (rev (w_rd w) ++ l) ->
   wrun n w l = Some w' -> rev (w_rd w') = rev (w_rd w) ++ l.
 Proof.
-  induction l as [|e t IH]; cbn; intros w w' S Ok H.
+  induction l as [|e t IH]; cbn; intros w w' S H.
   - inversion H; subst. now rewrite app_nil_r.
   - destruct (wstep n w e) as [w1|] eqn:E; [|discriminate].
     assert (S0 : sorted (rev (w_rd w))) by (apply SS_app_inv in S; tauto).
-    assert (Ok0 : allok (w_rd w)).
-    { apply Forall_app in Ok. destruct Ok as [Ok _].
-      eapply allok_perm; [apply Permutation_sym, Permutation_rev | exact Ok]. }
-    pose proof (wstep_sorted_id _ _ _ _ S0 Ok0 E) as R1.
+    pose proof (wstep_sorted_id _ _ _ _ S0 E) as R1.
     assert (Eq : rev (w_rd w1) ++ t = rev (w_rd w) ++ e :: t).
     { rewrite R1. cbn. rewrite <- app_assoc. reflexivity. }
     rewrite <- Eq. apply IH; auto; rewrite Eq; auto.
 Qed.
 
-Theorem winsort_sorted_input n l out : sorted l -> allok l -> winsort n l = Some out -> out = l.
+Theorem winsort_sorted_input n l out : sorted l -> winsort n l = Some out -> out = l.
 Proof.
-  intros S Ok. unfold winsort. destruct l as [|e t];
+  intros S. unfold winsort. destruct l as [|e t];
     [first [discriminate | intros H; inversion H; reflexivity]|].
   destruct (wrun n winit (e :: t)) as [w|] eqn:R; [|discriminate].
   intros H; inversion H; subst; clear H.
@@ -823,7 +813,6 @@ Theorem winsort_idempotent_partial n evs out : pre n evs -> winsort n evs = Some
 Proof.
   intros P H.
   destruct (winsort_post _ _ _ P H) as (Pm & S & _).
-  assert (Ok : allok out) by (eapply allok_perm; [exact Pm | eapply pre_allok; eauto]).
   split.
   - destruct (winsort n out) as [o2|] eqn:E; auto. left. f_equal.
     eapply winsort_sorted_input; eauto.
@@ -889,9 +878,9 @@ Proof.
   unfold exec_plan, exec_plan_r.
   destruct (find_destination n rd (min_clock (rev (firstn k rd)))) as [w|]; [|discriminate].
   destruct (ring_check _); [|discriminate]. intros H; inversion H; subst; clear H.
-  set (W := isort_by skey (rev (firstn w rd))).
+  set (W := isort_by clock (rev (firstn w rd))).
   assert (PW : Permutation (firstn w rd) (rev W)).
-  { eapply perm_trans; [apply Permutation_rev|]. eapply perm_trans; [apply (isort_perm skey)|].
+  { eapply perm_trans; [apply Permutation_rev|]. eapply perm_trans; [apply (isort_perm clock)|].
     apply Permutation_rev. }
   split.
   - rewrite <- (firstn_skipn w rd) at 1. apply Permutation_app_tail. exact PW.
@@ -1037,3 +1026,12 @@ Proof. vm_compute; reflexivity. Qed.
 Example silent_unterminated :
   winsort 9 [Pl 5 0; Rs 6 1; Pl 3 2; Pl 4 3] = Some [Pl 5 0; Rs 6 1; Pl 3 2; Pl 4 3].
 Proof. vm_compute; reflexivity. Qed.
+
+(* clocks on both sides of 2^63 (uint64 order, not int64 order) *)
+Definition B63 : Z := 9223372036854775808.
+Definition ex2 : list ev :=
+  [Pl (B63 - 2) 0; Pl (B63 + 3) 1; Rs (B63 + 4) 2; Pl (B63 - 1) 3; Pl (B63 + 1) 4; Re (B63 + 4) 5].
+Example ex2_sorts : pre 6 ex2 /\
+  winsort 6 ex2 = Some [Pl (B63 - 2) 0; Pl (B63 - 1) 3; Pl (B63 + 1) 4; Pl (B63 + 3) 1; Rs (B63 + 4) 2; Re (B63 + 4) 5]
+  /\ loader_accepts ex2 = false.
+Proof. repeat split; vm_compute; reflexivity. Qed.
